@@ -5,13 +5,14 @@ import (
 	"go/token"
 	"go/types"
 	"sort"
+	"strings"
 
 	"golang.org/x/tools/go/ssa"
 )
 
 func init() {
 	register("C17", &propCheck{
-		explain: "Elapsed time is not statically decidable; what is decided is that every wait on a command path is bounded by the right parameter and also wakes on its condition, and that every probe loop has an owner that stops it: (R17.1) exhaustive inventory of may-block instructions (select, channel receive/send, WaitGroup.Wait, time.Sleep, Cond.Wait) reachable from the RPC command handlers through calls, closures and joined goroutines, against a frozen table; each select has an arm on time.After(<the function's own timeout parameter>) created once, plus the awaited condition; (R17.1b) the deploy/drain/pause timeouts travel from the RPC argument to those parameters without being swapped (all are time.Duration); (R17.2) disposal chain Service -> both slots -> all targets -> stopHealthChecks -> cancel; (R17.3) remove disposes before unbinding, successful redeploy drains then disposes the replaced balancer, failed deploy disposes the new one on every error path, a timed-out target stops its own probes.",
+		explain:    "Elapsed time is not statically decidable; what is decided is that every wait on a command path is bounded by the right parameter and also wakes on its condition, and that every probe loop has an owner that stops it: (R17.1) exhaustive inventory of may-block instructions (select, channel receive/send, WaitGroup.Wait, time.Sleep, Cond.Wait) reachable from the RPC command handlers through calls, closures and joined goroutines, against a frozen table; each select has an arm on time.After(<the function's own timeout parameter>) created once, plus the awaited condition; (R17.1b) the deploy/drain/pause timeouts travel from the RPC argument to those parameters without being swapped (all are time.Duration); (R17.2) disposal chain Service -> both slots -> all targets -> stopHealthChecks -> cancel; (R17.3) remove disposes before unbinding, successful redeploy drains then disposes the replaced balancer, failed deploy disposes the new one on every error path, a timed-out target stops its own probes.",
 		notDecided: []string{"the numeric bounds and promptness as elapsed time", "behaviour of timers under load"},
 		run:        checkC17,
 	})
@@ -187,6 +188,7 @@ func r171b(c *Ctx) {
 		all = append(all, withAnon(f)...)
 	}
 	c.durationArgsAgreeResolved(rule, all)
+	c.durationFieldsAgree(rule, all)
 }
 
 // durationArgsAgreeResolved: like durationArgsAgree, but arguments are resolved through captured cells,
@@ -229,18 +231,75 @@ func (c *Ctx) durationArgsAgreeResolved(rule string, fns []*ssa.Function) {
 				want := callee.Params[i].Name()
 				s, w := norm(src), norm(want)
 				ok := s == w
+				// by role: which bound a name stands for (a parameter object may call its fields just `deploy` / `drain`)
+				role := func(n string) string {
+					switch {
+					case strings.Contains(n, "deploy"):
+						return "deploy"
+					case strings.Contains(n, "drain"):
+						return "drain"
+					case strings.Contains(n, "pause") || n == "failafter":
+						return "pause"
+					}
+					return ""
+				}
+				if !ok && role(s) != "" && role(s) == role(w) {
+					ok = true
+				}
 				if !ok && w == "timeout" {
 					switch callee.Name() {
 					case "WaitUntilHealthy":
-						ok = s == "deploytimeout" || s == "timeout"
+						ok = role(s) == "deploy" || s == "timeout"
 					case "DrainAll", "Drain":
-						ok = s == "draintimeout" || s == "timeout"
+						ok = role(s) == "drain" || s == "timeout"
 					}
 				}
 				if !ok && w == "failafter" {
-					ok = s == "pausetimeout"
+					ok = role(s) == "pause"
 				}
 				c.ob(rule, fmt.Sprintf("%s: %s -> %s(%s:)", fname(fn), src, callee.Name(), want), cs.pos(), ok, true, "each timeout must reach the wait it is meant to bound (all are time.Duration: a swap compiles)")
+			}
+		}
+	}
+}
+
+// durationFieldsAgree: a time.Duration stored into a struct field inside the timeout-carrying functions keeps its role
+// (`deployTimeouts{deploy: deployTimeout, drain: drainTimeout}`: a swap compiles).
+func (c *Ctx) durationFieldsAgree(rule string, fns []*ssa.Function) {
+	role := func(n string) string {
+		n = strings.ToLower(strings.ReplaceAll(n, "_", ""))
+		switch {
+		case strings.Contains(n, "deploy"):
+			return "deploy"
+		case strings.Contains(n, "drain"):
+			return "drain"
+		case strings.Contains(n, "pause") || n == "failafter":
+			return "pause"
+		}
+		return ""
+	}
+	for _, fn := range fns {
+		for _, b := range fn.Blocks {
+			for _, in := range b.Instrs {
+				st, ok := in.(*ssa.Store)
+				if !ok || typeString(st.Val.Type()) != "time.Duration" {
+					continue
+				}
+				f, _, isField := fieldOfAddr(st.Addr)
+				if !isField {
+					continue
+				}
+				src := ""
+				r := resolve(st.Val)
+				if p, isP := r.(*ssa.Parameter); isP {
+					src = p.Name()
+				} else if ch, _ := fieldPath(r); len(ch) > 0 {
+					src = ch[len(ch)-1].Name()
+				}
+				if role(f.Name()) == "" || role(src) == "" {
+					continue
+				}
+				c.ob(rule, fmt.Sprintf("%s: %s -> field %s", fname(fn), src, f.Name()), st.Pos(), role(f.Name()) == role(src), true, "a timeout put into a parameter object must go into the field of its own role (all are time.Duration: a swap compiles)")
 			}
 		}
 	}
